@@ -1,9 +1,159 @@
 import NmVerif.Proto
+import NmVerif.Simd.Loop
+import NmVerif.Simd.Enum
+import NmVerif.Simd.Eval
+/-
+  Driver handler of C12: answers the harness protocol of harness/h_c12_*.cpp with the MODEL
+  (Simd/Loop.lean, Simd/Enum.lean, Simd/Eval.lean) on integer data.  The packed intrinsics are
+  instantiated lane-wise (`xs.map f`, `List.zipWith f`): that is the assumption `LaneWise*` of Props/C12.lean.
+-/
 namespace NmVerif.Driver.C12
-open NmVerif NmVerif.Proto
+open NmVerif NmVerif.Proto NmVerif.Simd
 
-def handle : Handler := fun op _args =>
-  match op with
+/-- scalar functors the model can evaluate exactly on integer-valued data -/
+def unaryF : String → Option (Int → Int)
+  | "floor" => some id
+  | "ceil" => some id
+  | "relu" => some (fun x => max x 0)
+  | "relu6" => some (fun x => min (max x 0) 6)
+  | _ => none
+
+def binaryF : String → Option (Int → Int → Int)
+  | "add" => some (· + ·)
+  | "subtract" => some (· - ·)
+  | "multiply" => some (· * ·)
+  | _ => none
+
+/-- `view.op.identity()` when the op has one, else 0 (eval_reduction l.235-242) -/
+def identityOf : String → Int
+  | "multiply" => 1
+  | _ => 0
+
+def okVals (shape : String) (vals : List Int) : String :=
+  s!"ok shape={shape} val={fmtInts vals}"
+
+def fmtT (t : TIdx) : List Int := [t.tag, (t.off : Int)]
+
+def arrOf (a : Args) (shapeK layoutK dataK : String) : Option (NDA Int) := do
+  let shape ← a.nats shapeK
+  let data ← a.ints dataK
+  let col := (a.get? layoutK) == some "col"
+  pure { shape := shape, colMajor := col, data := data }
+
+def handle : Handler := fun kind a =>
+  match kind with
+  | "unary" => orBad do
+      let f ← (a.get? "op").bind unaryF
+      let lanes ← a.nat "lanes"
+      let arr ← arrOf a "shape" "layout" "data"
+      match simdUnary lanes (·.map f) f arr (List.replicate (prod arr.shape) 0) with
+      | some out => pure (okVals (fmtNats arr.shape) out)
+      | none => pure "ub"
+  | "binary" => orBad do
+      let f ← (a.get? "op").bind binaryF
+      let N ← a.nat "lanes"
+      let l ← arrOf a "lshape" "llayout" "ldata"
+      let r ← arrOf a "rshape" "rlayout" "rdata"
+      if l.shape == r.shape then
+        match simdBinarySame N (List.zipWith f) f l r (List.replicate (prod l.shape) 0) with
+        | some out => pure (okVals (fmtNats l.shape) out)
+        | none => pure "ub"
+      else
+        match l.shape, r.shape with
+        | [lr, lc], [rr, rc] =>
+          let R := max lr rr
+          let C := max lc rc
+          match simdBinary2d N (List.zipWith f) f l.data r.data lr lc rr rc C (List.replicate (R * C) 0) with
+          | some out => pure (okVals (fmtNats [R, C]) out)
+          | none => pure "ub"
+        | _, _ => pure "unsupported"
+  | "outer" => orBad do
+      let f ← (a.get? "op").bind binaryF
+      let N ← a.nat "lanes"
+      let l ← arrOf a "lshape" "llayout" "ldata"
+      let r ← arrOf a "rshape" "rlayout" "rdata"
+      let os := l.shape ++ r.shape
+      match simdOuter N (List.zipWith f) f l.data r.data os l.shape r.shape (List.replicate (prod os) 0) with
+      | some out => pure (okVals (fmtNats os) out)
+      | none => pure "ub"
+  | "reduce" => orBad do
+      let opn ← a.get? "op"
+      let f ← binaryF opn
+      let N ← a.nat "lanes"
+      let arr ← arrOf a "shape" "layout" "data"
+      let keep ← a.nat "keepdims"
+      let axis ← a.optInt "axis"
+      match axis with
+      | none =>
+        match simdReduceAll N (List.zipWith f) f 0 arr with
+        | some v => pure (okVals (if keep == 0 then "num" else fmtNats (arr.shape.map (fun _ => 1))) [v])
+        | none => pure "ub"
+      | some ax =>
+        let dim := arr.shape.length
+        let axn : Nat := if ax < 0 then (dim - (-ax).toNat) else ax.toNat
+        let outShape := if keep == 0 then arr.shape.eraseIdx axn else keepShape arr.shape axn
+        match simdReduceAxis N (List.zipWith f) f 0 (identityOf opn) arr ax with
+        | some out => pure (okVals (fmtNats outShape) out)
+        | none => pure "ub"
+  | "matmul" => orBad do
+      let N ← a.nat "lanes"
+      let ls ← a.nats "lshape"
+      let rs ← a.nats "rshape"
+      let ld ← a.ints "ldata"
+      let rd ← a.ints "rdata"
+      match ls, rs with
+      | [M, K], [_, Nn] =>
+        match simdMatmul N (fun x y z => x * y + z) (· + ·) 0 ld rd M K Nn (List.replicate (M * Nn) 0) with
+        | some out => pure (okVals (fmtNats [M, Nn]) out)
+        | none => pure "ub"
+      | _, _ => none
+  -- pure enumerators, tuple by tuple
+  | "enum_binary2d" => orBad do
+      let N ← a.nat "lanes"
+      let out ← a.nats "out"
+      let l ← a.nats "lhs"
+      let r ← a.nats "rhs"
+      match out, l, r with
+      | [_, oc], [lr, lc], [rr, rc] =>
+        let n := binary2dSize N oc lr rr
+        let rows := (List.range n).map (fun i =>
+          let (o, x, y) := binary2dAt N oc lr lc rr rc i
+          fmtT o ++ fmtT x ++ fmtT y)
+        pure s!"ok n={n} t={fmtIntLists rows}"
+      | _, _, _ => none
+  | "enum_reduce" => orBad do
+      let N ← a.nat "lanes"
+      let out ← a.nats "out"
+      let inp ← a.nats "inp"
+      let axis ← a.nat "axis"
+      let kind := if (a.get? "kind") == some "h" then RKind.horizontal else RKind.vertical
+      let n := reductionSize kind N inp axis
+      let rows ← (List.range n).mapM (fun i => do
+          let (o, x) ← reductionAt kind N out inp axis i
+          pure (fmtT o ++ fmtT x))
+      pure s!"ok n={n} t={fmtIntLists rows}"
+  | "enum_outer" => orBad do
+      let N ← a.nat "lanes"
+      let l ← a.nats "lhs"
+      let r ← a.nats "rhs"
+      let os := l ++ r
+      let n := outerSize N os l r
+      let rows := (List.range n).map (fun i =>
+          let (o, x, y) := outerAt N os l r i
+          fmtT o ++ fmtT x ++ fmtT y)
+      pure s!"ok n={n} t={fmtIntLists rows}"
+  | "enum_matmul" => orBad do
+      let N ← a.nat "lanes"
+      let l ← a.nats "lhs"
+      let r ← a.nats "rhs"
+      match l, r with
+      | [M, K], [_, Nn] =>
+        let inner := matmulInnerSize N K
+        let rows := (List.range (M * Nn)).flatMap (fun o => (List.range inner).map (fun s =>
+          let (x, y, z) := matmulInner N o s Nn K
+          fmtT x ++ fmtT y ++ fmtT z))
+        pure s!"ok n={M * Nn} inner={inner} t={fmtIntLists rows}"
+      | _, _ => none
   | _ => none
 
 end NmVerif.Driver.C12
